@@ -875,6 +875,15 @@ def run_C15(ctx):
                     e = special or r.choice(['string', 'stream', 'file'])
                     out = impl.do('loccase %d %d %s %s' % (g, t, e, hexs(tx)))
                     stats['c15:g%dt%d:%s' % (g, t, e)] = stats.get('c15:g%dt%d:%s' % (g, t, e), 0) + 1
+        # float renderings that take the writer's rare paths (the exact %.17g re-rendering near DBL_MAX, exponents, huge
+        # fixed notation, denormals) under every option word that matters (scientific notation) and low/high precisions
+        rare = b'm = 1.7976931348623157e308;\nn = -1.7976931348623157e308;\np = 1.7976e308;\nq = 1e300;\nr = 4.9e-324;\ns = 123456789.125;\nt = 1e15;\nu = [ 0.5, 1.5e10 ];\n'
+        for opts in (22, 22 | 32):
+            for pr in (0, 1, 3, 5, 6, 15, 17):
+                for g in (0, 1):
+                    for t in (0, 1):
+                        impl.do('loccase %d %d %s %s %d %d' % (g, t, ('string', 'file', 'stream')[(pr + g + t) % 3], hexs(rare), opts, pr))
+                        stats['c15:rare-floats'] = stats.get('c15:rare-floats', 0) + 1
         # two threads whose calls overlap: A parked inside its include function in the middle of a read while B reads
         # and writes floats, under every locale set-up
         for g in (0, 1):
@@ -902,7 +911,7 @@ def run_C15(ctx):
                 return i, 'the harness set-up did not take effect (radix %s, expected %s)' % (f[6], want_radix)
             if f[0] == '1' and (f[2] != '1' or f[3] != '1'):
                 return i, 'written file was not read back to the same text under this locale'
-            key = (w[3] if w[3] in ('failstream', 'badfile', 'missing') else 'read', w[4])
+            key = (w[3] if w[3] in ('failstream', 'badfile', 'missing') else 'read', w[4], tuple(w[5:]))
             if key in base and base[key] != (f[0], f[1]):
                 return i, 'result or written text differs between locale set-ups'
             base.setdefault(key, (f[0], f[1]))
@@ -946,6 +955,16 @@ def run_C18(ctx):
             for tail in (b'\na = 1;\n', b' b = "s"; c = 2;\n', b'\n@include ""\nz = 0x1;\n', b'x "y" z\n'):
                 for head in (b'', b'q = 1;\n', b'  '):
                     impl.do('lexx 1 ' + hexs(head + b'@include "' + path + b'"' + tail)); stats['c18:lexx-include'] = stats.get('c18:lexx-include', 0) + 1
+        # directives that DO include files: what follows the directive on its line is scanned in the middle of a line (a
+        # second directive there is not a directive), also when the included file does not end in a newline; byte-order marks
+        # and CR LF at the start of input, of lines and of included files
+        impl.do('mkfile %s %s' % (hexs(b'la.cfg'), hexs(b'x = 1;\n'))); impl.do('mkfile %s %s' % (hexs(b'lb.cfg'), hexs(b'y = 2;\n')))
+        impl.do('mkfile %s %s' % (hexs(b'lc.cfg'), hexs(b'x = 1;'))); impl.do('mkfile %s %s' % (hexs(b'ld.cfg'), hexs(b'\xef\xbb\xbfw = 3;\r\n')))
+        for t in (b'@include "la.cfg" @include "lb.cfg"\n', b'q = 1;\n@include "la.cfg" @include "lb.cfg" z = 1;\n', b'@include "lc.cfg" @include "lb.cfg"\n',
+                  b'@include "lc.cfg"@include "lb.cfg"\n', b'@include "la.cfg"\n@include "lb.cfg"\n', b'@include "la.cfg|lb.cfg" @include "lc.cfg"\n',
+                  b'@include "ld.cfg"\nv = 4;\n', b'@include "la.cfg" # c\n@include "lb.cfg"\n', b'@include "la.cfg" /* c */ @include "lb.cfg"\n',
+                  b'\xef\xbb\xbfa = 1;\n', b'a = 1;\n\xef\xbb\xbfb = 2;\n', b'a = [ 1,\n\xef\xbb\xbf2 ];\n', b'a = 1;\r\nb = 2;\r\n', b' \xef\xbb\xbfa = 1;\n'):
+            impl.do('lexx 1 ' + hexs(t)); impl.do('lexx 0 ' + hexs(t)); stats['c18:lexx-real-includes'] = stats.get('c18:lexx-real-includes', 0) + 1
     correspondence(ctx, [fnx], proj_lex, None, 'C18 tokenization', 'lex-full-alphabet')
 
 def run_C13(ctx):
@@ -1077,7 +1096,7 @@ REGISTRY = {
     'C14': dict(modules=['LibconfigModel.Properties.C14'], run=run_C14, assumptions=COMMON_ASSUMPTIONS + ['the C memory model and races inside libc are outside the model; ThreadSanitizer observes executed paths only', 'config_set_fatal_error_func is not called concurrently (it writes the only mutable static object)']),
     'C13': dict(modules=['LibconfigModel.Properties.CFlow', 'LibconfigModel.Properties.C13'], run=run_C13, assumptions=COMMON_ASSUMPTIONS + ['what the process does after a handler that returns is documented as undefined and not examined', 'allocations inside libc (fopen, newlocale, stdio buffers) are not the library\'s own and are not failed']),
     'C18': dict(modules=['LibconfigModel.Properties.C18', 'LibconfigModel.Properties.Skeleton'], run=run_C18, assumptions=COMMON_ASSUMPTIONS + ['the generic flex matching loop (Flex.lean) is a hand-written model of the skeleton flex emits for every scanner; it is tied by the lex correspondence']),
-    'C20': dict(modules=['LibconfigModel.Properties.C20', 'LibconfigModel.Properties.C20File', 'LibconfigModel.Properties.Skeleton', 'LibconfigModel.Properties.C20Buffer', 'LibconfigModel.Properties.C20Used'], run=run_C20, assumptions=COMMON_ASSUMPTIONS + ['the buffer arithmetic of yy_get_next_buffer is modelled by hand (FlexBuffer.lean), pinned to the generated text by the skeleton hashes and exercised at the 8/16/32 KiB boundaries under ASan; yyrealloc is assumed to succeed']),
+    'C20': dict(modules=['LibconfigModel.Properties.CFlow', 'LibconfigModel.Properties.C20', 'LibconfigModel.Properties.C20File', 'LibconfigModel.Properties.Skeleton', 'LibconfigModel.Properties.C20Buffer', 'LibconfigModel.Properties.C20Used'], run=run_C20, assumptions=COMMON_ASSUMPTIONS + ['the buffer arithmetic of yy_get_next_buffer is modelled by hand (FlexBuffer.lean), pinned to the generated text by the skeleton hashes and exercised at the 8/16/32 KiB boundaries under ASan; yyrealloc is assumed to succeed']),
     'C15': dict(modules=['LibconfigModel.Properties.CFlow', 'LibconfigModel.Properties.C15', 'LibconfigModel.Properties.C15Threads'], run=run_C15, assumptions=COMMON_ASSUMPTIONS + ['the comma-decimal locale is synthesised from C.utf8 by patching the radix byte of LC_NUMERIC (the sandbox has no other locales)', 'glibc newlocale with a NULL base yields the "C" locale in every category']),
     'C12': dict(modules=['LibconfigModel.Properties.CFlow', 'LibconfigModel.Properties.C12'], run=run_C12, assumptions=COMMON_ASSUMPTIONS + ['stdio reports a failed write(2) through fflush()/ferror(); a successful fclose() means the kernel accepted all data']),
     'C09': dict(modules=['LibconfigModel.Properties.CFlow', 'LibconfigModel.Properties.C09', 'LibconfigModel.Properties.C09Line'], run=run_C09, assumptions=COMMON_ASSUMPTIONS),
